@@ -103,6 +103,8 @@ PROPS["C04"] = dict(
         "'the same session and identifier' is read per direction: an exchange started by the peer (stored PUBREC, PUBREL awaited) and an exchange started by the broker may use the same number at the same time (MQTT: independent identifier spaces; repair 512b194)",
     ],
     runs=[
+        # a second sweep overlapping the callbacks of a running one (other goroutine / from inside a callback), an entry registered in between: 1728 scenarios
+        dict(name="overlap", pkg="c04", run="TestOverlappingSweeps", timeout=300),
         # long histories: a key registered again exactly 256n / 65536n registrations later (per-queue counters that wrap)
         dict(name="long", pkg="c04", run="TestLongHistories", checks=dict(quick=480, thorough=8000), shards=16, timeout=dict(quick=400, thorough=2400), shrinktime="60s"),
         dict(name="regress", pkg="c04", run="TestRegress"),
@@ -269,6 +271,8 @@ PROPS["C02"] = dict(
     assumptions=["subscribers stay connected and auto-acknowledge", "client packet ids (20000+) are kept apart from the broker's outbound ids (the broker shares one in-flight id space per session for both directions)",
                  "delivery order is not checked (not stated)"],
     runs=[
+        # a publish from another connection sent (and acknowledged) at the very moment the subscriber holds its SUBACK must reach it
+        dict(name="suback", pkg="c02", run="TestPublishAtSubAck", checks=dict(quick=96, thorough=1600), shards=8, timeout=dict(quick=400, thorough=2400), shrinktime="60s"),
         dict(name="regress", pkg="c02", run="TestRegress", timeout=300),
         dict(name="long", pkg="c02", run="TestLong", timeout=dict(quick=300, thorough=900)),
         dict(name="random", pkg="c02", run="TestRandom", checks=dict(quick=960, thorough=8000), shards=dict(quick=16, thorough=16),
@@ -356,6 +360,8 @@ PROPS["C12"] = dict(
           "deliver-all). Non-trivial = an older session's event or teardown happens after the newest session subscribed. Distinct = distinct case."),
     assumptions=["proviso of the property: the accepting node knows the previous session", "judged only with all gossip delivered (quiescence)"],
     runs=[
+        # 2-24 connections presenting one identifier at the same moment on a node knowing 0 / 2000 / 20000 sessions: all established, exactly one served after their pings
+        dict(name="simultaneous", pkg="c12", run="TestSimultaneousConnects", checks=dict(quick=64, thorough=1600), shards=8, timeout=dict(quick=400, thorough=2400), shrinktime="60s"),
         # takeover during an outage of the broker links; the removal arrives by push/pull 0-28 h later (tombstones must not be forgotten)
         dict(name="outage", pkg="c12", run="TestOutage", timeout=600),
         dict(name="regress", pkg="c12", run="TestRegress", timeout=300),
@@ -589,6 +595,8 @@ PROPS["C15"] = dict(
     assumptions=["resume is inclusive by design (the offset file stores the last completed offset): replaying that one message again is allowed",
                  "a killed incarnation may have appended fewer messages than asked; the harness counts the appends the child recorded"],
     runs=[
+        # logs growing past 10 000 (thorough 100 000) entries, the consumer killed before / at / after the boundary with a backlog ahead, restarted
+        dict(name="longlogs", pkg="c15", run="TestLongLogs", timeout=dict(quick=400, thorough=2400)),
         # crash images: every state-file content observed through the file system while a consumer runs at full speed is restarted on
         dict(name="images", pkg="c15", run="TestCrashImages", timeout=dict(quick=300, thorough=1800)),
         dict(name="regress", pkg="c15", run="TestRegress", timeout=300),
